@@ -565,4 +565,369 @@ theorem groupMids_bundle (mids : List Str) (hne : mids ≠ []) (ht : ∀ m ∈ m
     · exact ht t h)]
   rfl
 
+/-! ### the audio intersection of a re-negotiation -/
+
+theorem remoteAudioCap_pt (m : Media) (pt : Nat) : (remoteAudioCap m pt).pt = pt := rfl
+
+theorem toAudioCaps_pt (m : Media) (a : ACap) (h : a ∈ toAudioCaps m) :
+    ∃ f ∈ m.formats, parseU8 f = some a.pt := by
+  unfold toAudioCaps at h
+  split at h
+  · cases h
+  · obtain ⟨n, hn, rfl⟩ := List.mem_map.mp h
+    obtain ⟨f, hf, hfn⟩ := List.mem_filterMap.mp hn
+    exact ⟨f, hf, by rw [remoteAudioCap_pt]; exact hfn⟩
+
+theorem deriveAnswerAudio_pt (r : Media) (loc : List ACap) (a : ACap) (h : a ∈ deriveAnswerAudio r loc) :
+    ∃ f ∈ r.formats, parseU8 f = some a.pt := by
+  unfold deriveAnswerAudio at h
+  obtain ⟨rc, hrc, hsome⟩ := List.mem_filterMap.mp h
+  split at hsome
+  · simp only [Option.some.injEq] at hsome
+    subst hsome
+    exact toAudioCaps_pt r rc hrc
+  · cases hsome
+
+/-- the one place where the answer's codecs ARE intersected with the offer: a re-negotiation's audio
+section. Every answered format is a format of the offered audio section that was consulted. -/
+theorem reinvite_audio_formats_offered (c : Cfg) (remote : List Media) (hasLocal : Bool) (mid : Str) (caps : List ACap)
+    (h : reinviteAudioCaps c remote hasLocal mid = some caps)
+    (hcanon : ∀ r ∈ remote, ∀ f ∈ r.formats, ∀ n, parseU8 f = some n → natStr n = f) :
+    ∃ r ∈ remote, r.kind = .audio ∧ (mid = [] ∨ r.mid = mid) ∧
+      ∀ f ∈ (codecPart c .audio remote hasLocal mid).1, f ∈ r.formats := by
+  have hcp : (codecPart c .audio remote hasLocal mid).1 = caps.map (fun a => natStr a.pt) := by
+    simp [codecPart, h, applyAudioCaps]
+  unfold reinviteAudioCaps at h
+  split at h
+  · cases h
+  · dsimp only at h
+    split at h
+    · cases h
+    · rename_i r hr
+      split at h
+      · cases h
+      · simp only [Option.some.injEq] at h
+        subst h
+        have hmem : r ∈ remote ∧ r.kind = .audio ∧ (mid = [] ∨ r.mid = mid) := by
+          split at hr
+          · rename_i hm
+            have := List.find?_some hr
+            exact ⟨List.mem_of_find?_eq_some hr, by simpa using this, Or.inl (by simpa using hm)⟩
+          · have := List.find?_some hr
+            simp only [Bool.and_eq_true, decide_eq_true_eq] at this
+            exact ⟨List.mem_of_find?_eq_some hr, this.1, Or.inr this.2⟩
+        refine ⟨r, hmem.1, hmem.2.1, hmem.2.2, ?_⟩
+        intro f hf
+        rw [hcp] at hf
+        obtain ⟨a, ha, rfl⟩ := List.mem_map.mp hf
+        obtain ⟨f', hf', hp⟩ := deriveAnswerAudio_pt r c.audioCaps a ha
+        rw [hcanon r hmem.1 f' hf' a.pt hp]
+        exact hf'
+
+
+/-! ### RTX strip and echo -/
+
+theorem ptRest_firstToken (v : Str) (pt : Nat) (rest : Str) (h : ptRest v = some (pt, rest)) :
+    firstTokenU8 v = some pt := by
+  unfold ptRest at h
+  cases hs : splitOnce ' ' v with
+  | none => simp [hs] at h
+  | some pr =>
+    obtain ⟨p, r⟩ := pr
+    simp only [hs, Option.map_eq_some_iff, Prod.mk.injEq] at h
+    obtain ⟨n, hn, rfl, rfl⟩ := h
+    obtain ⟨hv, _⟩ := splitOnce_spec ' ' v p r hs
+    have htok : IsTok p := parseUnsigned_tok 256 p n hn
+    have hh := splitWs_head_tok p r htok
+    rw [← hv] at hh
+    unfold firstTokenU8
+    cases hw : splitWs v with
+    | nil => simp [hw] at hh
+    | cons t ts =>
+      simp only [hw, List.head?_cons, Option.some.injEq] at hh
+      subst hh
+      exact hn
+
+/-- one step of the `extract_rtx_apt_map` fold -/
+def aptStep (m : List (Nat × Nat)) (v : Str) : List (Nat × Nat) :=
+  match ptRest v with
+  | some (pt, fmtp) => match parseApt fmtp with | some primary => aptInsert (pt, primary) m | none => m
+  | none => m
+
+theorem aptMap_eq_foldl (attrs : List Attr) : aptMap attrs = (attrVals attrs "fmtp").foldl aptStep [] := rfl
+
+theorem aptInsert_mem (e q : Nat × Nat) (m : List (Nat × Nat)) (h : q ∈ aptInsert e m) : q = e ∨ q ∈ m := by
+  induction m with
+  | nil => simp [aptInsert] at h; exact Or.inl h
+  | cons d rest ih =>
+    unfold aptInsert at h
+    split at h
+    · rcases List.mem_cons.mp h with h | h
+      · exact Or.inl h
+      · exact Or.inr h
+    · split at h
+      · rcases List.mem_cons.mp h with h | h
+        · exact Or.inl h
+        · exact Or.inr (List.mem_cons_of_mem _ h)
+      · rcases List.mem_cons.mp h with h | h
+        · exact Or.inr (by simp [h])
+        · rcases ih h with h | h
+          · exact Or.inl h
+          · exact Or.inr (List.mem_cons_of_mem _ h)
+
+theorem aptInsert_keys (e : Nat × Nat) (m : List (Nat × Nat)) :
+    e.1 ∈ (aptInsert e m).map (·.1) ∧ ∀ k ∈ m.map (·.1), k ∈ (aptInsert e m).map (·.1) := by
+  induction m with
+  | nil => simp [aptInsert]
+  | cons d rest ih =>
+    unfold aptInsert
+    split
+    · refine ⟨by simp, fun k hk => ?_⟩
+      simp only [List.map_cons, List.mem_cons] at hk ⊢
+      exact Or.inr hk
+    · split
+      · rename_i heq
+        refine ⟨by simp, ?_⟩
+        intro k hk
+        simp only [List.map_cons, List.mem_cons] at hk ⊢
+        rcases hk with hk | hk
+        · left; rw [hk, heq]
+        · right; exact hk
+      · refine ⟨by simp [ih.1], ?_⟩
+        intro k hk
+        simp only [List.map_cons, List.mem_cons] at hk ⊢
+        rcases hk with hk | hk
+        · left; exact hk
+        · right; exact ih.2 k hk
+
+theorem aptStep_mem (m : List (Nat × Nat)) (v : Str) (q : Nat × Nat) (h : q ∈ aptStep m v) :
+    q ∈ m ∨ ∃ f, ptRest v = some (q.1, f) ∧ parseApt f = some q.2 := by
+  unfold aptStep at h
+  split at h
+  · rename_i pt fmtp hp
+    split at h
+    · rename_i primary hpa
+      rcases aptInsert_mem _ _ _ h with e | e
+      · right; subst e; exact ⟨fmtp, hp, hpa⟩
+      · exact Or.inl e
+    · exact Or.inl h
+  · exact Or.inl h
+
+theorem aptStep_keys (m : List (Nat × Nat)) (v : Str) : ∀ k ∈ m.map (·.1), k ∈ (aptStep m v).map (·.1) := by
+  intro k hk
+  unfold aptStep
+  split
+  · split
+    · exact (aptInsert_keys _ m).2 k hk
+    · exact hk
+  · exact hk
+
+theorem foldl_aptStep_mem (vs : List Str) (m : List (Nat × Nat)) (q : Nat × Nat) (h : q ∈ vs.foldl aptStep m) :
+    q ∈ m ∨ ∃ v ∈ vs, ∃ f, ptRest v = some (q.1, f) ∧ parseApt f = some q.2 := by
+  induction vs generalizing m with
+  | nil => exact Or.inl h
+  | cons v rest ih =>
+    rcases ih _ h with h' | ⟨v', hv', f, hf⟩
+    · rcases aptStep_mem m v q h' with h'' | ⟨f, hf⟩
+      · exact Or.inl h''
+      · exact Or.inr ⟨v, by simp, f, hf⟩
+    · exact Or.inr ⟨v', by simp [hv'], f, hf⟩
+
+theorem foldl_aptStep_keys_mono (vs : List Str) (m : List (Nat × Nat)) :
+    ∀ k ∈ m.map (·.1), k ∈ (vs.foldl aptStep m).map (·.1) := by
+  induction vs generalizing m with
+  | nil => intro k hk; exact hk
+  | cons v rest ih => intro k hk; exact ih _ k (aptStep_keys m v k hk)
+
+theorem foldl_aptStep_keys (vs : List Str) (m : List (Nat × Nat)) (v : Str) (hv : v ∈ vs) (pt primary : Nat) (f : Str)
+    (hp : ptRest v = some (pt, f)) (ha : parseApt f = some primary) :
+    pt ∈ (vs.foldl aptStep m).map (·.1) := by
+  induction vs generalizing m with
+  | nil => cases hv
+  | cons w rest ih =>
+    rcases List.mem_cons.mp hv with e | e
+    · subst e
+      simp only [List.foldl_cons]
+      apply foldl_aptStep_keys_mono
+      unfold aptStep
+      simp only [hp, ha]
+      exact (aptInsert_keys (pt, primary) m).1
+    · exact ih _ e
+
+theorem mem_attrVals (attrs : List Attr) (k : String) (v : Str) :
+    v ∈ attrVals attrs k ↔ ∃ a ∈ attrs, a.key = k.toList ∧ a.value = some v := by
+  unfold attrVals
+  rw [List.mem_filterMap]
+  constructor
+  · rintro ⟨a, ha, h⟩
+    split at h
+    · exact ⟨a, ha, by assumption, h⟩
+    · cases h
+  · rintro ⟨a, ha, hk, hv⟩
+    exact ⟨a, ha, by simp [hk, hv]⟩
+
+/-- after `strip_rtx_from_section` no `apt=` association is left -/
+theorem aptMap_stripRtx (fa : List Str × List Attr) : aptMap (stripRtx fa).2 = [] := by
+  unfold stripRtx
+  dsimp only
+  split
+  · rename_i hemp
+    -- no RTX payload types at all: the apt map was empty
+    have : (aptMap fa.2).map (·.1) = [] := by
+      have := hemp
+      simp only [List.isEmpty_iff, List.append_eq_nil_iff] at this
+      exact this.1
+    simpa using this
+  · rename_i hne
+    rw [List.eq_nil_iff_forall_not_mem]
+    intro q hq
+    rw [aptMap_eq_foldl] at hq
+    rcases foldl_aptStep_mem _ [] q hq with h | ⟨v, hv, f, hp, ha⟩
+    · cases h
+    · obtain ⟨a, haf, hk, hval⟩ := (mem_attrVals _ "fmtp" v).mp hv
+      obtain ⟨hmem, hkeep⟩ := List.mem_filter.mp haf
+      have hkey : q.1 ∈ (aptMap fa.2).map (·.1) := by
+        rw [aptMap_eq_foldl]
+        exact foldl_aptStep_keys _ [] v ((mem_attrVals _ "fmtp" v).mpr ⟨a, hmem, hk, hval⟩) q.1 q.2 f hp ha
+      have hft := ptRest_firstToken v q.1 f hp
+      have hk2 : (a.key = "rtpmap".toList || a.key = "fmtp".toList || a.key = "rtcp-fb".toList) = true := by
+        rw [hk]; decide
+      rw [if_pos hk2, hval] at hkeep
+      simp only [hft] at hkeep
+      have hcont : ∀ R2 : List Nat, ((aptMap fa.2).map (·.1) ++ R2).contains q.1 = true := fun R2 => by
+        rw [List.contains_iff_mem]; exact List.mem_append_left _ hkey
+      rw [hcont] at hkeep
+      cases hkeep
+
+
+theorem natStr_noWs (n : Nat) : ∀ c ∈ natStr n, isWs c = false := (natStr_tok n).2
+
+theorem natStr_no_char (n : Nat) (ch : Char) (h : isDigit ch = false) : ch ∉ natStr n := by
+  intro hm
+  have := natStr_digits n ch hm
+  rw [h] at this; cases this
+
+/-- `parse_apt("apt=<p>")` -/
+theorem parseApt_apt (p : Nat) : parseApt ("apt=".toList ++ natStr p) = parseU8 (natStr p) := by
+  have hno : ';' ∉ ("apt=".toList ++ natStr p) := by
+    intro hm
+    rcases List.mem_append.mp hm with h | h
+    · revert h; decide
+    · exact natStr_no_char p ';' (by decide) h
+  have hws : ∀ c ∈ ("apt=".toList ++ natStr p), isWs c = false := by
+    intro c hc
+    rcases List.mem_append.mp hc with h | h
+    · have : ∀ d ∈ "apt=".toList, isWs d = false := by decide
+      exact this c h
+    · exact natStr_noWs p c h
+  unfold parseApt
+  rw [splitOn_none ';' _ hno]
+  simp only [List.findSome?_cons, List.findSome?_nil]
+  rw [trim_noWs _ hws]
+  have hsp : stripPrefix "apt=".toList ("apt=".toList ++ natStr p) = some (natStr p) := by
+    simp [stripPrefix]
+  rw [hsp]
+  simp [trim_noWs _ (natStr_noWs p)]
+
+/-- `ptRest("<r> apt=<p>")` -/
+theorem ptRest_rtx_fmtp (r p : Nat) :
+    ptRest (natStr r ++ " apt=".toList ++ natStr p) = (parseU8 (natStr r)).map (fun n => (n, "apt=".toList ++ natStr p)) := by
+  unfold ptRest
+  have e : natStr r ++ " apt=".toList ++ natStr p = natStr r ++ ' ' :: ("apt=".toList ++ natStr p) := by simp
+  rw [e, splitOnce_append_of_not_mem ' ' _ _ (natStr_no_char r ' ' (by decide))]
+
+theorem appendRtx_apt (fa : List Str × List Attr) (p r cl : Nat) (q : Nat × Nat)
+    (h : q ∈ aptMap (appendRtx fa p r cl).2) : q ∈ aptMap fa.2 ∨ q = (r, p) := by
+  unfold appendRtx at h
+  dsimp only at h
+  split at h
+  · exact Or.inl h
+  · have hv : attrVals (fa.2 ++ [attr "rtpmap" (natStr r ++ " rtx/".toList ++ natStr cl),
+        attr "fmtp" (natStr r ++ " apt=".toList ++ natStr p)]) "fmtp" =
+        attrVals fa.2 "fmtp" ++ [natStr r ++ " apt=".toList ++ natStr p] := by
+      rw [attrVals_append]
+      congr 1
+    rw [aptMap_eq_foldl, hv, List.foldl_append] at h
+    simp only [List.foldl_cons, List.foldl_nil] at h
+    rcases aptStep_mem _ _ q h with h' | ⟨f, hp, ha⟩
+    · exact Or.inl h'
+    · right
+      rw [ptRest_rtx_fmtp] at hp
+      unfold parseU8 at hp
+      rw [parseUnsigned_natStr_eq] at hp
+      split at hp
+      · simp only [Option.map_some, Option.some.injEq, Prod.mk.injEq] at hp
+        obtain ⟨h1, h2⟩ := hp
+        subst h2
+        rw [parseApt_apt] at ha
+        unfold parseU8 at ha
+        rw [parseUnsigned_natStr_eq] at ha
+        split at ha
+        · simp only [Option.some.injEq] at ha
+          exact Prod.ext h1.symm ha.symm
+        · cases ha
+      · cases hp
+
+theorem rtxFor_mem (am : List (Nat × Nat)) (p rtx : Nat) (h : rtxFor am p = some rtx) : (rtx, p) ∈ am := by
+  unfold rtxFor at h
+  cases hf : am.find? (fun e => e.2 = p) with
+  | none => simp [hf] at h
+  | some e =>
+    simp only [hf, Option.map_some, Option.some.injEq] at h
+    have hm := List.mem_of_find?_eq_some hf
+    have hp := List.find?_some hf
+    simp only [decide_eq_true_eq] at hp
+    have : e = (rtx, p) := Prod.ext h hp
+    rw [← this]; exact hm
+
+theorem foldl_appendRtx_apt (am : List (Nat × Nat)) (r : Media) (ps : List Nat) (fa : List Str × List Attr) (q : Nat × Nat)
+    (h : q ∈ aptMap (ps.foldl (fun fa p => match rtxFor am p with
+      | some rtx => appendRtx fa p rtx (remoteVideoClock r p)
+      | none => fa) fa).2) : q ∈ aptMap fa.2 ∨ q ∈ am := by
+  induction ps generalizing fa with
+  | nil => exact Or.inl h
+  | cons p ps ih =>
+    simp only [List.foldl_cons] at h
+    rcases ih _ h with h' | h'
+    · split at h'
+      · rename_i rtx hr
+        rcases appendRtx_apt _ _ _ _ _ h' with h'' | h''
+        · exact Or.inl h''
+        · right; rw [h'']; exact rtxFor_mem am p rtx hr
+      · exact Or.inl h'
+    · exact Or.inr h'
+
+/-- the remote section `merge_remote_rtx_into_answer` consults -/
+def rtxSource (remote : List Media) (mid : Str) : Option Media :=
+  match remote.find? (fun s => s.mid = mid) with
+  | some s => some s
+  | none => remote.find? (fun s => s.kind = Kind.video)
+
+theorem mergeRemoteRtx_apt (remote : List Media) (mid : Str) (fa : List Str × List Attr) (q : Nat × Nat)
+    (h : q ∈ aptMap (mergeRemoteRtx remote mid fa).2) :
+    q ∈ aptMap fa.2 ∨ ∃ r, rtxSource remote mid = some r ∧ q ∈ aptMap r.attrs := by
+  unfold mergeRemoteRtx at h
+  dsimp only at h
+  split at h
+  · exact Or.inl h
+  · rename_i r hr
+    split at h
+    · exact Or.inl h
+    · rcases foldl_appendRtx_apt _ _ _ _ _ h with h' | h'
+      · exact Or.inl h'
+      · exact Or.inr ⟨r, hr, h'⟩
+
+/-- **RTX strip and echo**: every `apt=` association of an answered video section comes from the remote
+section `merge_remote_rtx_into_answer` consults (the section with the same mid, else the first video
+section) — whatever RTX the local configuration carries is stripped first. -/
+theorem video_rtx_echo_offered (c : Cfg) (remote : List Media) (hasLocal : Bool) (mid : Str) (q : Nat × Nat)
+    (h : q ∈ aptMap (codecPart c .video remote hasLocal mid).2) :
+    ∃ r, rtxSource remote mid = some r ∧ q ∈ aptMap r.attrs := by
+  unfold codecPart at h
+  dsimp only at h
+  rcases mergeRemoteRtx_apt _ _ _ _ h with h' | h'
+  · rw [aptMap_stripRtx] at h'; cases h'
+  · exact h'
+
+
 end RtcModel.Answer
